@@ -185,9 +185,11 @@ def extensionOf (f : OutFmt) : String :=
   | none => Gen.defaultExtension
 
 /-- `derive_output_filename` -/
-def deriveOutputFilename (f : OutFmt) (input : String) : Except String String :=
+def deriveOutputFilename (f : OutFmt) (inputs : List String) : Except String String :=
+  -- the name is derived from the first input and must not be any of the inputs (finding F71, repaired: only the first was compared)
+  let input := inputs.getD 0 ""
   let out := String.ofList ((setExtension input.toList (extensionOf f).toList).map fun c => if c == '\\' then '/' else c)
-  if out == input then .error "cannot derive safe output filename" else .ok out
+  if inputs.contains out then .error "cannot derive safe output filename" else .ok out
 
 def defaultFormat (printout : Bool) : OutFmt :=
   let d := if printout then Gen.defaultFormats.getD 0 ("Binary", []) else Gen.defaultFormats.getD 1 ("Binary", [])
@@ -247,17 +249,18 @@ def parseGroups : List (List String) → Command → Except String Command
                 defines := defs }
 
 /-- defaults: format (annotated when printing, binary otherwise) and derived file names -/
-def finishGroups (inputs : List String) : List OutGroup → List OutGroup → Except String (List OutGroup)
+def finishGroups (inputs : List String) (infoOnly : Bool) : List OutGroup → List OutGroup → Except String (List OutGroup)
   | [], acc => .ok acc
   | g :: rest, acc =>
     let fmt := match g.format with
       | some f => f
       | none => defaultFormat g.printout
-    if !g.printout && g.outFile.isNone && inputs.length ≥ 1 then
-      match deriveOutputFilename fmt (inputs.getD 0 "") with
+    -- nothing is derived when only the help or version text is asked for (finding F78, repaired)
+    if !g.printout && g.outFile.isNone && inputs.length ≥ 1 && !infoOnly then
+      match deriveOutputFilename fmt inputs with
       | .error e => .error e
-      | .ok name => finishGroups inputs rest (acc ++ [{ g with format := some fmt, outFile := some name }])
-    else finishGroups inputs rest (acc ++ [{ g with format := some fmt }])
+      | .ok name => finishGroups inputs infoOnly rest (acc ++ [{ g with format := some fmt, outFile := some name }])
+    else finishGroups inputs infoOnly rest (acc ++ [{ g with format := some fmt }])
 
 /-- `parse_command(args)`; `args[0]` is the program name -/
 def parseCommand (args : List String) : Except String Command :=
@@ -266,7 +269,7 @@ def parseCommand (args : List String) : Except String Command :=
   match parseGroups groups init with
   | .error e => .error e
   | .ok cmd =>
-    match finishGroups cmd.inputs cmd.groups [] with
+    match finishGroups cmd.inputs (cmd.showHelp || cmd.showVersion) cmd.groups [] with
     | .error e => .error e
     | .ok gs => .ok { cmd with groups := gs }
 
